@@ -244,7 +244,13 @@ pub fn conn_target_for(check: &str, data: &[u8]) -> R {
         "C08" => c08::test(&h, &mut st),
         "C12" => c12::test(&h, &mut st),
         "C13" => c13::test(&h, &mut st),
-        "C14" => c14::test(&h, &mut st),
+        "C14" => c14::test(&h, &mut st).and_then(|_| {
+            // the late-frame rule holds whatever the peer does: the same decoded history without the handshake discipline,
+            // frames still arriving after a close request
+            let mut free = h.clone();
+            free.disciplined = false;
+            c14::test_late(&free, &mut st)
+        }),
         "C15" => c15::test(&h, &mut st),
         "C19" => c19::test(&h, &mut st),
         _ => Ok(()),
